@@ -226,7 +226,14 @@ impl<'a, 'b> Gen<'a, 'b> {
             }
             4 => {
                 let k = self.src.of(&[RangeKind::RangeTo, RangeKind::RangeToInclusive]);
-                Ty::range(k, Ty::Prim(self.src.of(&IDX_PRIMS)))
+                if self.src.chance(1, 4) {
+                    // a composite index of power-of-two size: the unit of the range (its size) exceeds its alignment
+                    let p = Ty::Prim(self.src.of(&[Prim::U8, Prim::U16, Prim::U32, Prim::I16]));
+                    let idx = if self.src.chance(1, 2) { Ty::tup(p, 2) } else { Ty::arr(p, self.src.of(&[2usize, 4])) };
+                    Ty::range(k, idx)
+                } else {
+                    Ty::range(k, Ty::Prim(self.src.of(&IDX_PRIMS)))
+                }
             }
             5 => {
                 if self.src.chance(1, 2) {
@@ -519,6 +526,26 @@ impl<'a, 'b> Gen<'a, 'b> {
             let tys = variants.pop().unwrap();
             Body::Struct(self.mk_fields(tys, true))
         };
+        // ---- shapes outside the plain grammar
+        fn flat(t: &Ty) -> bool {
+            match t {
+                Ty::Prim(_) => true,
+                Ty::Array(e, CExpr::Lit(_)) | Ty::Tuple(e, _) => flat(e),
+                _ => false,
+            }
+        }
+        // packed zero-copy structures (size no longer a multiple of the alignment unit)
+        if zero && !is_enum && def.params.is_empty() && def.reprs.len() == 1 && !def.all_fields().is_empty() && def.all_fields().iter().all(|t| flat(t)) && self.src.chance(1, 5) {
+            def.reprs.push(self.src.of(&["packed", "packed(2)", "packed(4)"]).to_string());
+        }
+        // deep-copy enums with a primitive representation (the format's tag stays a usize)
+        if !zero && is_enum && def.reprs.is_empty() && self.src.chance(1, 5) {
+            def.reprs.push(self.src.of(&["u8", "u16", "u32", "C, u8", "usize"]).to_string());
+        }
+        // definitions emitted through macro_rules! with `ty` fragments (see render.rs)
+        if self.src.chance(1, 8) {
+            def.name = format!("Mac{}", def.name);
+        }
         def
     }
 }
